@@ -251,7 +251,9 @@ class Interp:
             if op == '~=':
                 return int(l != r), el
             d = l - r
-            if d < INT_MIN or d > INT_MAX:
+            # the relational operators are defined through each other ((x <= y) = not (y < x), ...), so an
+            # implementation may form either difference: both x-y and y-x must be representable
+            if d < -INT_MAX or d > INT_MAX:
                 if not self.wrap:
                     raise Undefined('cmp-overflow')
                 # wrap mode mirrors the subtract-and-test-sign implementation
